@@ -39,7 +39,7 @@ H = {
 }
 PROPS = {
  "C04": [f"c04_process_p{i}" for i in range(4)] + ["c04_dispatch_ackno", "c04_dispatch_inv", "c04_recv_slice", "c04_recv_closure", "c04_peek"],
- "C05": ["c05_dispatch_data_order", "c05_dispatch_window_mss", "c05_dispatch_fin_winfield", "c05_dispatch_inv", "c05_process_ack", "c05_send_slice"],
+ "C05": ["c05_dispatch_data_order", "c05_dispatch_window_mss", "c05_dispatch_fin_winfield", "c05_dispatch_inv", "c05_process_ack", "c05_send_slice", "c17_process_open"],
  "C17": [f"c17_process_p{i}" for i in range(4)] + ["c17_process_open", "c17_dispatch_edges", "c17_api_close_abort", "c17_close_inv", "c17_api_listen_connect"],
  "C02": ["c02_deadline_from_timer_inv", "c02_dispatch_keeps_timer", "c02_process_keeps_timer_p0", "c02_process_keeps_timer_p1", "c02_api_keeps_timer"],
  "C01": [f"c04_process_p{i}" for i in range(4)] + ["c04_recv_slice", "c04_dispatch_inv", "c05_dispatch_data_order", "c05_dispatch_inv", "c05_send_slice", "c05_process_ack", "c17_process_open", "c17_dispatch_edges"],
